@@ -8,7 +8,8 @@ PARSE = {"RulesModel.Proofs.ParseComplete": ["Rules.P.parse_iff", "Rules.P.D_uni
 LEXG = {"RulesModel.Model.Regex": ["Rules.Regex.deriv_iff", "Rules.Regex.longest_spec"],
         "RulesModel.Model.Lexer": ["Rules.bestMatch_pos", "Rules.lexFuel_partition"]}
 MODELLED = ["jsonquery_visitor_impl.go is translated into Lean on every run and proved equal to the model (Proofs/VisitorGen; when that is `not established` the hand transcription validated by the correspondence carries it); hand transcription of *_operation.go / evaluate.go / nester_error.go into Lean (validated by the correspondence check on every run; recognised rows of the operation table are tied semantically)",
-            "Go standard library (strconv, strings.ToLower, encoding/json, fmt), blang/semver v3.5.1 and the ANTLR 4.13 runtime: modelled, not verified"]
+            "Go standard library (strconv, strings.ToLower, encoding/json, fmt), blang/semver v3.5.1 and the ANTLR 4.13 runtime: modelled, not verified",
+            "lexer tables: the decoder of the serialised ATN (extract/atn.go) and Model/ATN.atnM as the meaning of a lexer ATN are trusted; their language equality with the grammar's token rules is a kernel-checked theorem (Tie/LexerATNProof) when established"]
 
 def P(level, ties, thms, expl, extra_tb=(), assumptions=()):
     return {"level": level, "ties": ties, "theorems": thms, "explanation": expl, "trusted_base": MODELLED + list(extra_tb), "assumptions": list(assumptions)}
